@@ -30,10 +30,11 @@ def main():
                 continue
             meta = {"property": pid, "variant": k, "ran": []}
             env = "CARGO_TARGET_DIR=%s/target CARGO_NET_OFFLINE=true" % wt
+            feat = " --features utils" if pid == "C18" else ""
             sh("git checkout -- . && git clean -fdq tests/demo*.rs", cwd=wt)
             if os.path.exists(demo):
                 shutil.copy(demo, "%s/tests/seeddemo.rs" % wt)
-                rc0, out0 = sh("%s cargo test --offline --test seeddemo 2>&1 | tail -5" % env, cwd=wt)
+                rc0, out0 = sh("%s cargo test --offline%s --test seeddemo 2>&1 | tail -5" % (env, feat), cwd=wt)
                 meta["demo_without_patch"] = "pass" if "test result: ok" in out0 else "FAIL"
             rc, out = sh("git apply %s" % patch, cwd=wt)
             if rc != 0:
@@ -42,7 +43,7 @@ def main():
                 rc1, out1 = sh("(%s cargo test --offline --lib 2>&1; %s cargo test --offline --doc 2>&1) | grep 'test result'" % (env, env), cwd=wt)
                 meta["suite_with_patch"] = "pass" if out1.count("test result: ok") >= 2 and "FAILED" not in out1 else "FAIL: " + out1[-300:]
                 if os.path.exists(demo):
-                    rc2, out2 = sh("%s cargo test --offline --test seeddemo 2>&1 | tail -8" % env, cwd=wt)
+                    rc2, out2 = sh("%s cargo test --offline%s --test seeddemo 2>&1 | tail -8" % (env, feat), cwd=wt)
                     meta["demo_with_patch"] = "fail" if ("FAILED" in out2 or "panicked" in out2 or "error" in out2.lower()) and "test result: ok" not in out2 else "PASS(unexpected)"
             sh("git checkout -- . ; rm -f tests/seeddemo.rs", cwd=wt)
             # now our checks against the change
